@@ -99,6 +99,10 @@ type recorder struct {
 	inHandler bool
 	reqs      []*dns.Msg
 	in        []byte
+	// stream mode (several messages on one connection, see stream.go): the
+	// octets given to MsgInvalidFunc are kept and attributed to a message later.
+	multi bool
+	invs  [][]byte
 }
 
 func (r *recorder) add(s string) {
@@ -124,6 +128,13 @@ func (r *recorder) write(b []byte, tcp bool) {
 }
 func (r *recorder) invalid(m []byte, err error) {
 	s := "inv:" + classifyInvalid(err)
+	if r.multi {
+		r.mu.Lock()
+		r.invs = append(r.invs, append([]byte(nil), m...))
+		r.ev = append(r.ev, s)
+		r.mu.Unlock()
+		return
+	}
 	if !bytes.Equal(m, r.in) {
 		s += ":OTHERBYTES"
 	}
@@ -220,7 +231,19 @@ func serveLoop(tr, pol string, ms [][]byte, rec *recorder) (ok bool) {
 			stream = binary.BigEndian.AppendUint16(stream, uint16(len(m)))
 			stream = append(stream, m...)
 		}
-		c := netfake.NewConn([][]byte{stream})
+		return serveLoopChunks(srv, [][]byte{stream}, rec)
+	}
+	return finishServe(srv, done)
+}
+
+// serveLoopChunks runs serveTCP -> serveTCPConn -> readTCP on ONE scripted
+// stream connection whose Read calls return exactly the given segments, one
+// per call (a segment longer than the reader's buffer is continued by the next
+// call), then io.EOF.
+func serveLoopChunks(srv *dns.Server, chunks [][]byte, rec *recorder) (ok bool) {
+	done := make(chan error, 1)
+	{
+		c := netfake.NewConn(chunks)
 		c.OnWrite = func(b []byte) { rec.write(b, true) }
 		l := netfake.NewListener(c)
 		srv.Listener = l
@@ -229,6 +252,10 @@ func serveLoop(tr, pol string, ms [][]byte, rec *recorder) (ok bool) {
 			return false
 		}
 	}
+	return finishServe(srv, done)
+}
+
+func finishServe(srv *dns.Server, done chan error) bool {
 	sd := make(chan error, 1)
 	go func() { sd <- srv.Shutdown() }()
 	select {
@@ -292,8 +319,13 @@ func policyAction(pol string, h dns.Header) dns.MsgAcceptAction {
 
 // serveOracle states the admission clauses of C14 on the observed event log.
 func serveOracle(tr, pol string, m []byte, ev []string, rec *recorder, path string) {
+	serveOracleIn(tr, pol, m, ev, rec, path, serveIn{tr, pol, Hx(m), strings.Join(ev, ";")})
+}
+
+// serveOracleIn: the same with the replay input given by the caller (a whole
+// stream history for messages that arrive on a shared connection).
+func serveOracleIn(tr, pol string, m []byte, ev []string, rec *recorder, path string, in any) {
 	stat["serve_oracle_checked"]++
-	in := serveIn{tr, pol, Hx(m), strings.Join(ev, ";")}
 	bad := func(key, desc string) { Viol("C14/Serve/"+key, path+": "+desc, in) }
 	var nh, ninv int
 	var libWrites [][]byte
@@ -1398,6 +1430,7 @@ func runLoopback(r *Rng) {
 func runC14(r *Rng, tier string, n int) {
 	runAccept(r)
 	runServe(r, tier)
+	runStreams(r, tier)
 	runMuxDirected()
 	runMux(r, tier)
 	runSkel(r, tier)
